@@ -1,11 +1,13 @@
 package main
 
 import (
+	"bytes"
 	"context"
 	"errors"
 	"fmt"
 	"io"
 	"sync/atomic"
+	"time"
 
 	goat "github.com/avos-io/goat"
 	"google.golang.org/grpc"
@@ -189,4 +191,137 @@ func c11FailedReset(r *Run) {
 			}
 		}
 	}
+}
+
+// c11SlowPeerLateFrame: the peer is slow to take the server's output for a few seconds (it has not
+// gone: it reads on afterwards), and meanwhile sends one more message for a stream whose handler has
+// long returned. The server owes a reset for it and can only hand it over when the peer reads again.
+// Being slow is not being dead: the connection survives, the other stream's responses all arrive, the
+// reset arrives, and a later unary request is answered.
+func c11SlowPeerLateFrame(r *Run) {
+	if !r.Want("slowpeer") {
+		return
+	}
+	in := map[string]any{"abandoned_stream": 5, "streaming_call": "8 responses, the peer takes one and pauses 3.5s", "late_frame": "one body for the abandoned stream during the pause"}
+	r.Progress("slowpeer", in)
+	hooks.Reset(true)
+	defer hooks.Reset(false)
+	sc := NewScript(0) // unbuffered Out
+	impl := &Impl{}
+	InstallPrograms(impl, NewHandlerLog(), nil)
+	srv := goat.NewServer("srv")
+	srv.RegisterService(&echoDesc, impl)
+	served := make(chan error, 1)
+	go func() { served <- srv.Serve(context.Background(), sc) }()
+	defer func() {
+		srv.Stop()
+		sc.FailRead(io.ErrClosedPipe)
+		go func() {
+			for range sc.Out {
+			}
+		}()
+		within(hangTimeout, func() { <-served })
+	}()
+	stall := func(what string) {
+		r.Violate("slowpeer.wedged", "ops", what, in, c11Events(), goroutineDump())
+	}
+	feed := func(e *Rpc, what string) bool {
+		if !c11Feed(sc, e, 2*hangTimeout) {
+			stall("the server stopped reading its transport: " + what)
+			return false
+		}
+		return true
+	}
+	take := func(what string) *Rpc {
+		select {
+		case e := <-sc.Out:
+			return e
+		case err := <-served:
+			served <- err
+			r.Violate("slowpeer.dropped", "ops", "the server dropped the whole connection because its peer was slow for a few seconds ("+what+")", in, fmt.Sprint("Serve returned: ", err), "Serve keeps running")
+			return nil
+		case <-time.After(2 * hangTimeout):
+			stall("the server wrote nothing: " + what)
+			return nil
+		}
+	}
+	// the abandoned stream: its handler returns at once
+	if !feed(c11PeerEnv(5, mBidi, "peer", "srv", "x-tag", "ab", "x-prog", "early:0"), "open of the stream to be abandoned") {
+		return
+	}
+	if e := take("trailer of the abandoned stream"); e == nil || e.Id != 5 || e.Trailer == nil {
+		return
+	}
+	if !hooks.WaitFor(siteIs("srv.unregister", 5), hangTimeout) {
+		stall("the abandoned stream's handler did not finish")
+		return
+	}
+	// the streaming call with 8 responses: the peer takes the first and pauses
+	if !feed(c11PeerEnv(6, mSrvStream, "peer", "srv", "x-tag", "sl", "x-prog", "burst:8"), "open of the streaming call") ||
+		!feed(c11WithBody(c11PeerEnv(6, mSrvStream, "peer", "srv"), []byte("req")), "request of the streaming call") {
+		return
+	}
+	if e := take("first response"); e == nil {
+		return
+	}
+	// the late frame for the abandoned stream (the read loop may be held until the peer reads again)
+	late := make(chan bool, 1)
+	go func() { late <- c11Feed(sc, c11WithBody(c11PeerEnv(5, mBidi, "peer", "srv"), []byte("late")), 6*time.Second+2*hangTimeout) }()
+	time.Sleep(3500 * time.Millisecond)
+	// the peer reads on
+	bodies, sawReset := 1, false
+	for !(bodies == 8 && sawReset) {
+		e := take("after the pause")
+		if e == nil {
+			return
+		}
+		switch {
+		case e.Id == 5 && e.GetReset_() != nil:
+			sawReset = true
+		case e.Id == 6 && e.Body != nil:
+			bodies++
+		}
+	}
+	// the streaming call's half-close, then its trailer
+	if !feed(c11WithTrailer(c11PeerEnv(6, mSrvStream, "peer", "srv"), 0), "half-close of the streaming call") {
+		return
+	}
+	for {
+		e := take("trailer of the streaming call")
+		if e == nil {
+			return
+		}
+		if e.Id == 6 && e.Trailer != nil {
+			break
+		}
+		if e.Id == 6 && e.Body != nil {
+			bodies++
+		}
+	}
+	if !<-late {
+		stall("the late frame was never read")
+		return
+	}
+	if bodies != 8 {
+		r.Violate("slowpeer.lost", "ops", "the slow caller did not receive all the responses of its stream", in, bodies, 8)
+	}
+	// a later unary request is answered
+	req := "probe-after-slow-peer"
+	if !feed(c11WithBody(c11PeerEnv(99, mUnary, "peer", "srv"), []byte(req)), "the probe request") {
+		return
+	}
+	for {
+		e := take("the probe's reply")
+		if e == nil {
+			return
+		}
+		if e.Id == 99 {
+			if !bytes.Equal(c11BodyOf(e), unaryF([]byte(req))) {
+				r.Violate("slowpeer.probe", "ops", "the unary request after the pause was not answered with its reply", in, shapeOf(e), nil)
+			}
+			break
+		}
+	}
+	r.Eval("slowpeer", true)
+	r.Count("c11.slowpeer")
 }
